@@ -283,6 +283,8 @@ class Interp:
     def select(self, seq, idx):
         """seq[idx] with symbolic idx"""
         cells = seq.cells if isinstance(seq, (Bytes, SList)) else list(seq)
+        if cells and all(isinstance(c, str) and len(c) == 1 for c in cells):
+            cells = [Bytes([ord(c)]) for c in cells]  # a table of characters (chr(..) results): one-cell byte strings
         n = len(cells)
         lo, hi = idx.lo, idx.hi
         if lo < -n or hi >= n:
@@ -292,7 +294,10 @@ class Interp:
                 raise Failure("IndexError", "index out of range")
             lo, hi = max(lo, -n), min(hi, n - 1)
         if lo < 0:
-            raise HarnessGap("negative symbolic index")
+            # Python's negative indexes: k < 0 means n + k (and -0 is 0): rewrite the index term accordingly
+            shifted = z3.If(idx.t < 0, idx.t + bv(n), idx.t)
+            idx = Sym(z3.simplify(shifted), 0, n - 1)
+            lo, hi = 0, n - 1
         cand = list(range(lo, hi + 1))
         first = cells[cand[-1]]
         if isinstance(first, Bytes):
